@@ -568,6 +568,12 @@ func (ab *dsAddrBook) setAddrs(p peer.ID, addrs []ma.Multiaddr, ttl time.Duratio
 	if len(addrs) == 0 {
 		return nil
 	}
+	if ttl <= 0 && mode == ttlExtend {
+		// nothing can be extended (ConsumePeerRecord gets here, AddAddrs
+		// returns earlier); do not let addrs that are already expired evict
+		// live ones through the per-peer cap.
+		return nil
+	}
 
 	pr, err := ab.loadRecord(p, true, false)
 	if err != nil {
